@@ -35,7 +35,8 @@ var ruleMatcher = map[string]string{
 	"expelled": "validator-expelled-byte-not-0-1",
 	"addrSet":  "validator-index-unsorted-or-duplicate",
 	"dsMap":    "doublesign-map-order-duplicate-hashlen",
-	"nilptr":   "nil-pointer-as-empty-list",
+	// "nilptr" (an rlp:"nil" pointer given as the wrong kind of empty value) was F-C14d, fixed in /repo by d3120fe:
+	// no matcher any more, a hit is a violation; its witness is kept in corpus/C14.
 }
 var ruleOrder = []string{"nilptr", "expelled", "addrSet", "dsMap"}
 
